@@ -314,6 +314,49 @@ func (c *Canon) inlineBody(fn *types.Func) (*load.FuncInfo, ast.Expr) {
 	return fi, ret.Results[0]
 }
 
+// projectionBody: the function's body is `a, b := g(...); return a` (or b): it hands back one result of g.
+// Returns the call of g and the index of the result.
+func (c *Canon) projectionBody(fn *types.Func) (*load.FuncInfo, *ast.CallExpr, int) {
+	fi := c.Prog.FuncInfoOf(fn)
+	if fi == nil || fi.Decl.Body == nil || len(fi.Decl.Body.List) != 2 {
+		return nil, nil, 0
+	}
+	sig := fn.Type().(*types.Signature)
+	if sig.Variadic() || sig.Results().Len() != 1 {
+		return nil, nil, 0
+	}
+	as, ok := fi.Decl.Body.List[0].(*ast.AssignStmt)
+	if !ok || len(as.Rhs) != 1 || len(as.Lhs) < 2 || (as.Tok != token.DEFINE && as.Tok != token.ASSIGN) {
+		return nil, nil, 0
+	}
+	g, ok := ast.Unparen(as.Rhs[0]).(*ast.CallExpr)
+	if !ok {
+		return nil, nil, 0
+	}
+	ret, ok := fi.Decl.Body.List[1].(*ast.ReturnStmt)
+	if !ok || len(ret.Results) != 1 {
+		return nil, nil, 0
+	}
+	rid, ok := ast.Unparen(ret.Results[0]).(*ast.Ident)
+	if !ok {
+		return nil, nil, 0
+	}
+	info := fi.Pkg.TypesInfo
+	for k, l := range as.Lhs {
+		if id, ok := l.(*ast.Ident); ok && id.Name != "_" && info.ObjectOf(id) == info.ObjectOf(rid) {
+			return fi, g, k
+		}
+	}
+	return nil, nil, 0
+}
+
+// ProjOf is the k-th result of the (pure) call ct.
+func ProjOf(ct *Term, k int, typ types.Type) *Term {
+	t := mk('k', fmt.Sprintf("%s#%d", ct.S, k), nil, typ, ct.A...)
+	t.Fn = ct.Fn
+	return t
+}
+
 func (c *Canon) bindParams(sc *scope, fi *load.FuncInfo, call *ast.CallExpr) *scope {
 	sub := map[types.Object]*Term{}
 	sig := fi.Obj.Type().(*types.Signature)
@@ -561,6 +604,13 @@ func (c *Canon) callTerm(sc *scope, call *ast.CallExpr) *Term {
 		if fi, body := c.inlineBody(fn); fi != nil {
 			if inner := c.bindParams(sc, fi, call); inner != nil {
 				return c.term(inner, body)
+			}
+		}
+		if fi, g, k := c.projectionBody(fn); fi != nil {
+			if inner := c.bindParams(sc, fi, call); inner != nil {
+				if gt := c.term(inner, g); gt != nil && gt.K == 'k' && gt.Fn != nil {
+					return ProjOf(gt, k, typ)
+				}
 			}
 		}
 	}
